@@ -14,4 +14,22 @@ fn plain_ip_address_is_accepted_and_allows_exactly_that_host() {
     // CIDR notation keeps working, entries are appended in order
     let b = b.add_allowed_address("192.168.0.0/16").unwrap().add_allowed_address("::1").unwrap();
     assert_eq!(b.allowed_addresses.as_ref().unwrap().len(), 3);
+    // every listed network allows the peers inside it and a plain address of EITHER family allows exactly that host
+    let nets = b.allowed_addresses.clone().unwrap();
+    let v6_host: std::net::IpAddr = "::1".parse().unwrap();
+    let v6_other: std::net::IpAddr = "::2".parse().unwrap();
+    let v6_far: std::net::IpAddr = "0:0:0:1::1".parse().unwrap();
+    assert!(nets[2].contains(&v6_host));
+    assert!(!nets[2].contains(&v6_other) && !nets[2].contains(&v6_far), "a plain IPv6 address stands for that host only");
+    let in16: std::net::IpAddr = "192.168.200.7".parse().unwrap();
+    let out16: std::net::IpAddr = "192.169.0.1".parse().unwrap();
+    assert!(nets[1].contains(&in16) && !nets[1].contains(&out16));
+    // "a peer inside ANY listed network is served": whatever was listed before, a network listed later must be honoured too
+    let b = PrometheusBuilder::new().add_allowed_address("10.0.0.0/24").unwrap().add_allowed_address("10.0.0.0/8").unwrap()
+        .add_allowed_address("10.0.0.0/24").unwrap();
+    let nets = b.allowed_addresses.clone().unwrap();
+    let wide_peer: std::net::IpAddr = "10.200.3.4".parse().unwrap();
+    let narrow_peer: std::net::IpAddr = "10.0.0.9".parse().unwrap();
+    assert!(nets.iter().any(|n| n.contains(&wide_peer)), "a peer inside the later, wider network must be allowed");
+    assert!(nets.iter().any(|n| n.contains(&narrow_peer)));
 }
